@@ -25,10 +25,10 @@ INF_IDL = 4611686018427387902
 STATE_RE = re.compile(r"n=(\d+) cap=(\d+) D=\[(.*?)\] P=\[(.*?)\] C=\{(.*?)\} V=\{(.*?)\} CS=\{(.*?)\} L=\[(.*)\] A=(\S*) Q=\[(.*?)\] T=\[(.*?)\] F=(\d+)$")
 
 EXTRACT_V = """From Coq Require Import Extraction ExtrOcamlBasic ZArith QArith Qcanon.
-From ORatio Require Import smt.DlDom smt.Dl smt.DlInst.
+From ORatio Require Import smt.DlDom smt.Dl smt.DlInst smt.DlAdapter smt.DlGuard.
 Extraction Language OCaml.
 Set Extraction Optimize.
-Extraction "dl_model.ml" idl_init idl_step rdl_init rdl_step Q2Qc Z.div_eucl.
+Extraction "dl_model.ml" idl_init idl_step rdl_init rdl_step Q2Qc Z.div_eucl idl_gp_self.
 """
 
 
@@ -37,7 +37,7 @@ def build_harness():
 
 
 def build_oracle():
-    return vlib.ocaml_build("dl", ["smt/DlDom.vo", "smt/Dl.vo", "smt/DlInst.vo"], EXTRACT_V, [("dl_main.ml", None)])
+    return vlib.ocaml_build("dl", ["smt/DlDom.vo", "smt/Dl.vo", "smt/DlInst.vo", "smt/DlAdapter.vo", "smt/DlGuard.vo"], EXTRACT_V, [("dl_main.ml", None)])
 
 
 def rdl_guard_in_source():
